@@ -965,13 +965,18 @@ class energy_units(units_context_manager):
             raise Exception("Unknown energy units")
             
     def __enter__(self):
-        # save current energy units
-        self.units_backup = self.manager.get_current_units("energy")
+        # save current energy units (one entry per entering: the same
+        # context object can be entered again while it is active)
+        if not hasattr(self, "_backups"):
+            self._backups = []
+        self._backups.append(self.manager.get_current_units("energy"))
+        self.units_backup = self._backups[-1]
         self.manager.set_current_units(self.utype,self.units)
         self.manager._in_energy_units_context = True
         self.manager._in_eu_count += 1
         
     def __exit__(self,ext_ty,exc_val,tb):
+        self.units_backup = self._backups.pop()
         self.manager.set_current_units("energy",self.units_backup)
         self.manager._in_eu_count -= 1
         if self.manager._in_eu_count == 0:
@@ -1002,11 +1007,15 @@ class length_units(units_context_manager):
             raise Exception("Unknown length units")
             
     def __enter__(self):
-        # save current energy units
-        self.units_backup = self.manager.get_current_units("length")
+        # save current length units (one entry per entering)
+        if not hasattr(self, "_backups"):
+            self._backups = []
+        self._backups.append(self.manager.get_current_units("length"))
+        self.units_backup = self._backups[-1]
         self.manager.set_current_units(self.utype,self.units)
         
     def __exit__(self,ext_ty,exc_val,tb):
+        self.units_backup = self._backups.pop()
         self.manager.set_current_units("length",self.units_backup)
 
 
